@@ -229,12 +229,12 @@ def parseM7 : P (Nat × Redis.Cmd) := do
   pure (now, c)
 
 /-- a sharding-layer reply over M7 in the C01 reply syntax; the elements of a KEYS reply in key order -/
-def showReply7 (r : Reply) : String :=
+def showReply7 (c : Redis.Cmd) (r : Reply) : String :=
   match r with
   | .keys l => C01.showReply (.arr ((sortNat l).map Redis.Elem.key))
   | r =>
     match M7.toM7 r with
-    | some x => C01.showReply x
+    | some x => C01.showReply (C01.canonReply c x)
     | none => "unmapped:" ++ showReply r
 
 def step (d : DState) (line : String) : DState × String :=
@@ -263,7 +263,7 @@ def step (d : DState) (line : String) : DState × String :=
     match runP parseM7 line with
     | some (now, c) =>
       let r := M7.execNT7code d.R now d.st7 c
-      ({ d with st7 := r.1 }, showReply7 r.2)
+      ({ d with st7 := r.1 }, showReply7 c r.2)
     | none => (d, "bad-op")
   | "NEW" :: _ =>
     match runP parseNew line with
